@@ -108,7 +108,9 @@ Definition script_writer : writer pkt sw_state := fun p st =>
 Definition wop := (Z * list wres * list Z * wres)%type.
 Definition tb (tbl : list pkt) (i : Z) : pkt := nth (Z.to_nat i) tbl pkt0.
 
-Definition wres_eqb (a b : wres) : bool := (fst a =? fst b) && list_eqb Z.eqb (snd a) (snd b).
+Definition sublist_b (a b : list Z) : bool := forallb (fun x => existsb (Z.eqb x) b) a.
+(* errors are compared as sets (errors.Is has no order) *)
+Definition wres_eqb (a b : wres) : bool := (fst a =? fst b) && sublist_b (snd a) (snd b) && sublist_b (snd b) (snd a).
 
 Fixpoint run_wops (ws_ : list (wrapper pkt)) (tbl : list pkt) (sts : list (ws pkt)) (ops : list wop)
   : bool * list (ws pkt) :=
@@ -225,8 +227,6 @@ Definition in_scope_w (c : cfg) (p : pkt) : bool :=
 Definition is_fec (c : cfg) (p : pkt) : bool :=
   c_fec c && (p_pid p =? -1) && (h_ssrc (p_hdr p) =? c_fec_ssrc c).
 
-Definition sublist_b (a b : list Z) : bool := forallb (fun x => existsb (Z.eqb x) b) a.
-
 (* one Write: 0 = fine *)
 Definition wop_spec (sid_for_upto : Z) (c : cfg) (rtcp : bool) (tbl : list pkt) (o : wop) : nat :=
   let '(pi, script, ocalls, ores) := o in
@@ -235,7 +235,7 @@ Definition wop_spec (sid_for_upto : Z) (c : cfg) (rtcp : bool) (tbl : list pkt) 
   let answers := firstn (length calls) (script ++ repeat (0, []) (length calls)) in
   if negb (rtcp || in_scope_w c p) then
     (* out of scope: either forwarded intact, or refused with an error and nothing sent *)
-    match calls with
+    match filter (fun x => negb (is_fec c x)) calls with
     | [] => match snd ores with [] => 21%nat | _ => 0%nat end
     | q :: _ => if upto_tccb sid_for_upto p q then 0%nat else 22%nat
     end
@@ -314,3 +314,22 @@ Definition c01_spec_code (cs : c01_case) : nat :=
   end end end end.
 
 Definition c01_spec_failures (cases : list c01_case) : list (Z * Z) := find_codes c01_spec_code cases 0.
+
+(* ---- traces (used when explaining a replay) ---- *)
+Fixpoint trace_wops (ws_ : list (wrapper pkt)) (tbl : list pkt) (sts : list (ws pkt)) (ops : list wop)
+  : list (list pkt * wres * (list pkt * wres)) :=
+  match ops with
+  | [] => []
+  | (pi, script, ocalls, ores) :: tl =>
+      let '((sts', (_, log)), r) := chain_bind ws_ script_writer (tb tbl pi) (sts, (script, [])) in
+      (log, r, (map (tb tbl) ocalls, ores)) :: trace_wops ws_ tbl sts' tl
+  end.
+Fixpoint trace_rops (rs_ : list rw) (tbl : list pkt) (sts : list (rs hdr)) (ops : list rop)
+  : list ((Z * list Z * Z * Z) * (Z * list Z * Z * Z)) :=
+  match ops with
+  | [] => []
+  | (ain, (n, di, amode, e), (on, oerrs, oaid, ocache, _)) :: tl =>
+      let d := hdr_of tbl di in
+      let '((sts', _), (mn, md, ma, me)) := rchain_bind rs_ script_reader (in_attr ain) (sts, [(n, d, amode, e)]) in
+      ((mn, me, attr_id ma, cache_state ma d), (on, oerrs, oaid, ocache)) :: trace_rops rs_ tbl sts' tl
+  end.
